@@ -220,10 +220,19 @@ def r4(ctx, tq, sch, wk):
     raise AnalysisError('C10.R4: worker loop not found')
   # who may pop / push
   whyw = ('only the worker removes entries and only Schedule adds them: the worker pops "the head" assuming it is the entry it peeked and timed')
-  poppers, pushers = [], []
+  poppers, pushers, raw = [], [], []
   for f in prog.all_funcs:
     if f.module.rel != T:
       continue
+    for c in ast.walk(f.node):
+      if isinstance(c, ast.Call) and isinstance(c.func, ast.Attribute) and U(c.func.value).endswith('._queue') and c.func.attr in (
+          'pop', 'remove', 'clear', 'sort', 'insert', 'append', 'extend', 'reverse', 'popleft', 'appendleft'):
+        raw.append('%s: %s' % (f.qualname, U(c)))
+      if isinstance(c, (ast.Assign, ast.AugAssign, ast.Delete)) and f.name != '__init__':
+        for t in (c.targets if not isinstance(c, ast.AugAssign) else [c.target]):
+          if isinstance(t, ast.Subscript) and U(t.value).endswith('._queue') and not isinstance(t.slice, ast.Slice) and not (isinstance(c, ast.Assign) and False):
+            # an item assignment on the heap list itself (not on an entry) reorders it behind heapq's back
+            raw.append('%s: %s' % (f.qualname, U(c)))
     for c in walk_no_nested(f.node):
       if isinstance(c, ast.Call):
         nm = call_name(c) or ''
@@ -240,6 +249,8 @@ def r4(ctx, tq, sch, wk):
           if U(t).startswith('self._queue'):
             poppers.append(f.qualname)
   ctx.ob('C10.R4', tq, 'only the worker pops the queue', sorted(set(poppers)) == ['TimerQueue._TimerWorker'], 'queue entries are removed in %s' % sorted(set(poppers)), whyw)
+  ctx.ob('C10.R4', tq, 'the queue list is changed through heapq only (heappush / heappop keep the earliest deadline at index 0)', not raw,
+         'list operation on the heap: %s' % raw, 'actions run in deadline order: the worker serves index 0, which is the earliest entry only while every insertion and removal goes through heapq')
   ctx.ob('C10.R4', tq, 'only Schedule pushes', sorted(set(pushers)) == ['TimerQueue.Schedule'], 'queue entries are added in %s' % sorted(set(pushers)), whyw)
   sp = [c for f in tq.methods.values() for c in ast.walk(f.node) if isinstance(c, ast.Call) and call_name(c) == 'gevent.spawn' and c.args and U(c.args[0]) == 'self._TimerWorker']
   ctx.ob('C10.R4', tq, 'exactly one worker per queue', len(sp) == 1, 'worker spawned %d times' % len(sp), 'a single consumer', nontrivial=False)
